@@ -45,6 +45,7 @@ def _work(units):
     acc = progcheck.Acc()
     wv = weight_vectors()
     for salt, order, wname, tier in units:
+        order = tuple(order) if isinstance(order, list) else order
         if order == "COLLIDE":
             # unit ids whose hash KEYS collide under crc32 (and have equal length), evaluated one after the other
             from ..enum import collide
@@ -64,6 +65,9 @@ def run(res, tier):
     units = [(s, o, w, tier) for s in SALTS for o in orders for w in weight_vectors()] + [(None, "COLLIDE", w, tier) for w in weight_vectors()]
     for w in pmap(_work, permuted(units, "c12"), chunk=8):
         res.merge_worker(w)
+    from ..common import hostile_runs
+
+    hostile_runs(res, "mc.checks.c12", "_work", [[s_, list(o), "eq64", "quick"] for s_ in (None, "s", "é") for o in (("a",), ("b", "a"))] + [[None, "COLLIDE", "123", "quick"]])
     # known answers of the position function (named in the anchors; skipped if it is renamed)
     fn = getattr(impl.binning, "deterministic_proba", None)
     n = 0
@@ -87,6 +91,13 @@ def run(res, tier):
 
 
 def replay(data):
+    if data.get("host_environment"):
+        from ..common import replay_in_host
+        from ..ref import parse as rp
+
+        a = rp.classify(data["text"])[1]
+        wname = {64: "eq64", 3: "123", 2: "19", 63: "ramp63"}[len(a[4][1])]
+        return replay_in_host(data, "mc.checks.c12", "_work", [[a[2], list(a[3]), wname, "quick"]])
     if data.get("kind") == "proba":
         fn = getattr(impl.binning, "deterministic_proba", None)
         try:
